@@ -19,7 +19,7 @@ def _matT_vec(Q, k, v):
     return [Q[0, i, k] * v[0] + Q[1, i, k] * v[1] + Q[2, i, k] * v[2] for i in range(3)]
 
 
-def _run(ctx, grid_kind, body_kind, dim, n_elems, taper, grid_kw, directors):
+def _run(ctx, grid_kind, body_kind, dim, n_elems, taper, grid_kw, directors, history="fresh"):
     sopht_modules()
     B.install_proxy()
     B.proxy(False)
@@ -32,15 +32,23 @@ def _run(ctx, grid_kind, body_kind, dim, n_elems, taper, grid_kw, directors):
     try:
         grid.compute_lag_grid_position_field()
         grid.compute_lag_grid_velocity_field()
+        if history == "after_transfer":
+            # call history of a coupled step: forces are transferred to the body, then (rates changed, pose not) only the
+            # marker velocities are refreshed - they must still be those of the material points at the markers
+            ne = body.n_elems if body_kind == "rod" else 1
+            nn = ne + 1 if body_kind == "rod" else 1
+            grid.transfer_forcing_from_grid_to_body(body_flow_forces=ctx.array("hist_forces", (3, nn)), body_flow_torques=ctx.array("hist_torques", (3, ne)),
+                                                    lag_grid_forcing_field=ctx.array("hist_F", (dim, grid.num_lag_nodes)))
+            grid.compute_lag_grid_velocity_field()
     finally:
         B.proxy(False)
     return body, grid, st
 
 
 @scenario
-def rigid_section_velocity(ctx, grid_kind, body_kind, dim, n_elems, taper, grid_kw):
+def rigid_section_velocity(ctx, grid_kind, body_kind, dim, n_elems, taper, grid_kw, history="fresh"):
     """v_m = v_c + (Q^T omega) x (x_m - x_c) for every marker (directors: nine free entries)"""
-    body, grid, st = _run(ctx, grid_kind, body_kind, dim, n_elems, taper, grid_kw, "free")
+    body, grid, st = _run(ctx, grid_kind, body_kind, dim, n_elems, taper, grid_kw, "free", history=history)
     X, V, W, Q = st["position_collection"], st["velocity_collection"], st["omega_collection"], st["director_collection"]
     ne = body.n_elems if body_kind == "rod" else 1
     pos, vel = grid.position_field, grid.velocity_field
@@ -200,6 +208,10 @@ def main():
             for cap in (False, True):
                 chk.add(rigid_section_velocity, grid_kind="surface", body_kind="rod", dim=3, n_elems=ne, taper=taper, grid_kw={"density": 4, "cap": cap})
                 chk.add(marker_radius, grid_kind="surface", n_elems=ne, taper=taper, grid_kw={"density": 4, "cap": cap})
+    # velocities refreshed after a force transfer without a position update (call history of the coupling loop)
+    for gk, bk, dim, ne_, kw in (("nodal", "rod", 3, 2, {}), ("element", "rod", 2, 2, {}), ("edge", "rod", 2, 2, {}), ("surface", "rod", 3, 2, {"density": 4, "cap": True}),
+                                 ("cylinder2d", "cylinder", 2, 1, {"n": 5}), ("cylinder3d", "cylinder", 3, 1, {"n": 2}), ("sphere", "sphere", 3, 1, {"n": 6}), ("plane", "plane", 3, 1, {"n": 3})):
+        chk.add(rigid_section_velocity, grid_kind=gk, body_kind=bk, dim=dim, n_elems=ne_, taper="linear" if bk == "rod" else "uniform", grid_kw=kw, history="after_transfer")
     # a forcing grid of the same class built earlier in the process for another body (other element count / marker density)
     chk.add(rigid_section_velocity, grid_kind="nodal", body_kind="rod", dim=3, n_elems=2, taper="uniform", grid_kw={}, _earlier=[{"n_elems": 3}, {"dim": 2}])
     chk.add(rigid_section_velocity, grid_kind="surface", body_kind="rod", dim=3, n_elems=2, taper="uniform", grid_kw={"density": 4, "cap": True}, _earlier=[{"grid_kw": {"density": 6, "cap": False}, "n_elems": 3}])
